@@ -175,10 +175,11 @@ fn expression_ends_with_prefix(expression: &Expression) -> bool {
         Expression::If(if_expression) => {
             expression_ends_with_prefix(if_expression.get_else_result())
         }
+        // numbers that are not finite are written between parentheses (`(0/0)`, `(1/0)`)
+        Expression::Number(number) => !number.compute_value().is_finite(),
         Expression::False(_)
         | Expression::Function(_)
         | Expression::Nil(_)
-        | Expression::Number(_)
         | Expression::String(_)
         | Expression::InterpolatedString(_)
         | Expression::Table(_)
